@@ -153,6 +153,48 @@ func connMaps(sb *strings.Builder) int {
 	type asg struct{ fn, field, kind string }
 	var asgs []asg
 	writes := map[[2]string]bool{}
+	// under: the map fields that live under the dotted path p (p itself excluded) - an assignment to p replaces them all
+	under := func(p string) (fs []string) {
+		for _, f := range fields {
+			if p != "" && strings.HasPrefix(f, p+".") {
+				fs = append(fs, f)
+			}
+		}
+		return
+	}
+	// the struct types through which a map field is reached (OneConnection and the named types of its nested fields):
+	// a composite literal of one of them that is ASSIGNED THROUGH A POINTER (`*c = OneConnection{}`) replaces every map
+	enclosing := map[string]bool{"OneConnection": true}
+	var walkT func(st *ast.StructType, depth int)
+	walkT = func(st *ast.StructType, depth int) {
+		if st == nil || depth > 3 {
+			return
+		}
+		for _, f := range st.Fields.List {
+			switch t := f.Type.(type) {
+			case *ast.StructType:
+				walkT(t, depth+1)
+			case *ast.Ident:
+				if sub := types[t.Name]; sub != nil {
+					var fs []string
+					mapFieldsOf(types, sub, "", 0, &fs)
+					if len(fs) > 0 {
+						enclosing[t.Name] = true
+					}
+					walkT(sub, depth+1)
+				}
+			}
+		}
+	}
+	walkT(conn, 0)
+	// constructors: the functions in which an object of the connection type is created (new(T), T{…}, &T{…});
+	// per map field: is there a `make` assignment at the TOP LEVEL of the body (not inside if / for / switch / closure)?
+	type ctorFact struct {
+		fn, field string
+		uncond    bool
+	}
+	var ctors []ctorFact
+	var ctorNames []string
 	var names []string
 	for n := range files {
 		names = append(names, n)
@@ -184,8 +226,30 @@ func connMaps(sb *strings.Builder) int {
 					}
 				}
 			}
+			creates := false
 			ast.Inspect(fd.Body, func(nd ast.Node) bool {
 				switch s := nd.(type) {
+				case *ast.CallExpr:
+					if id, ok := s.Fun.(*ast.Ident); ok && id.Obj == nil && id.Name == "new" && len(s.Args) == 1 {
+						if t, ok := s.Args[0].(*ast.Ident); ok && t.Name == "OneConnection" {
+							creates = true
+						}
+					}
+				case *ast.CompositeLit:
+					if t, ok := s.Type.(*ast.Ident); ok && t.Name == "OneConnection" {
+						creates = true
+					}
+				case *ast.UnaryExpr:
+					// &x.field / &x.prefix: the map can then be replaced through the pointer, out of sight of these facts
+					if s.Op == token.AND {
+						if p := fieldPath(s.X); isField[p] {
+							asgs = append(asgs, asg{fn, p, "addr"})
+						} else {
+							for _, f := range under(p) {
+								asgs = append(asgs, asg{fn, f, "addr"})
+							}
+						}
+					}
 				case *ast.AssignStmt:
 					for i, l := range s.Lhs {
 						entry(l)
@@ -195,6 +259,30 @@ func connMaps(sb *strings.Builder) int {
 								k = rhsKind(s.Rhs[i])
 							}
 							asgs = append(asgs, asg{fn, p, k})
+						} else if fs := under(p); len(fs) > 0 {
+							// an assignment to a struct that CONTAINS the map (c.InvDone = struct{…}{}): the map inside is whatever
+							// the new value holds - nil unless the literal makes one, which these facts do not look into
+							for _, f := range fs {
+								asgs = append(asgs, asg{fn, f, "enclosing"})
+							}
+						} else if _, ok := l.(*ast.StarExpr); ok {
+							// *x = T{…} for a type the maps live in / *x = *y inside a method of the connection
+							hit := false
+							if len(s.Rhs) == len(s.Lhs) {
+								switch r := s.Rhs[i].(type) {
+								case *ast.CompositeLit:
+									if t, ok := r.Type.(*ast.Ident); ok && enclosing[t.Name] {
+										hit = true
+									}
+								case *ast.StarExpr:
+									hit = strings.HasPrefix(fn, "OneConnection.")
+								}
+							}
+							if hit {
+								for _, f := range fields {
+									asgs = append(asgs, asg{fn, f, "enclosing"})
+								}
+							}
 						}
 					}
 				case *ast.IncDecStmt:
@@ -207,8 +295,35 @@ func connMaps(sb *strings.Builder) int {
 				}
 				return true
 			})
+			if creates {
+				ctorNames = append(ctorNames, fn)
+				for _, f := range fields {
+					unc := false
+					for _, st := range fd.Body.List {
+						if as, ok := st.(*ast.AssignStmt); ok && as.Tok == token.ASSIGN && len(as.Lhs) == len(as.Rhs) {
+							for i, l := range as.Lhs {
+								if fieldPath(l) == f && rhsKind(as.Rhs[i]) == "make" {
+									unc = true
+								}
+							}
+						}
+					}
+					ctors = append(ctors, ctorFact{fn, f, unc})
+				}
+			}
 		}
 	}
+	if len(ctorNames) == 0 {
+		die(fmt.Errorf("client/network: no function creates a OneConnection (new / composite literal) any more"))
+	}
+	sort.Strings(ctorNames)
+	sort.SliceStable(ctors, func(i, j int) bool {
+		if ctors[i].fn != ctors[j].fn {
+			return ctors[i].fn < ctors[j].fn
+		}
+		return ctors[i].field < ctors[j].field
+	})
+	recycleMirror(files, ctorNames)
 	sort.SliceStable(asgs, func(i, j int) bool {
 		if asgs[i].fn != asgs[j].fn {
 			return asgs[i].fn < asgs[j].fn
@@ -217,7 +332,7 @@ func connMaps(sb *strings.Builder) int {
 	})
 	sb.WriteString("/-- the map-typed fields of the connection object (dotted paths through nested structs) -/\n")
 	writeList(sb, "connMapFields", "", fields, true)
-	sb.WriteString("/-- every assignment to one of those fields in client/network (hooks excluded): (function, field, kind of\n    the value: make / nil / lit / other), sorted by function -/\n")
+	sb.WriteString("/-- every assignment to one of those fields in client/network (hooks excluded): (function, field, kind of\n    the value: make / nil / lit / other; `enclosing` = the struct that contains the map, or the whole object through a\n    pointer, is assigned; `addr` = the address of the field or of a struct containing it is taken), sorted by function -/\n")
 	sb.WriteString("def connMapAssigns : List (String × String × String) := [\n")
 	for i, a := range asgs {
 		sep := ","
@@ -225,6 +340,17 @@ func connMaps(sb *strings.Builder) int {
 			sep = ""
 		}
 		fmt.Fprintf(sb, "  (%s, %s, %s)%s\n", leanStr(a.fn), leanStr(a.field), leanStr(a.kind), sep)
+	}
+	sb.WriteString("]\n\n")
+	sb.WriteString("/-- the functions that create a connection object (new(OneConnection) / a composite literal), and per map field\n    whether the function assigns it a `make` at the top level of its body, i.e. unconditionally -/\n")
+	writeList(sb, "connCtors", "", ctorNames, true)
+	sb.WriteString("def connCtorMakes : List (String × String × Bool) := [\n")
+	for i, c := range ctors {
+		sep := ","
+		if i == len(ctors)-1 {
+			sep = ""
+		}
+		fmt.Fprintf(sb, "  (%s, %s, %v)%s\n", leanStr(c.fn), leanStr(c.field), c.uncond, sep)
 	}
 	sb.WriteString("]\n\n")
 	var ws [][2]string
@@ -242,7 +368,7 @@ func connMaps(sb *strings.Builder) int {
 		fmt.Fprintf(sb, "  (%s, %s)%s\n", leanStr(w[0]), leanStr(w[1]), sep)
 	}
 	sb.WriteString("]\n\n")
-	return len(fields) + len(asgs) + len(ws)
+	return len(fields) + len(asgs) + len(ws) + len(ctors) + len(ctorNames)
 }
 
 // blockFront writes BuildTxListHead and PostCheckFront (frozen copies in Model/NetParseFacts.lean).
@@ -291,4 +417,58 @@ func blockFront(sb *strings.Builder) int {
 	writeList(sb, "PostCheckFront", lg, sk[:end], false)
 	n += end
 	return n
+}
+
+// recycleMirror: the harness's run stream re-initialises a finished connection object through
+// network.VerifRecycle (verif_export.go) instead of calling the constructor (16 MB send ring per object). That
+// function is a hand copy of the constructor's initialisation; what must not drift apart is compared here on
+// every run: the `x.<path> = make(…)` statements at the top level of the constructor (text with the receiver
+// removed) must be exactly those at the top level of VerifRecycle. A difference stops the run (broken tie).
+func recycleMirror(files map[string]*ast.File, ctorNames []string) {
+	tops := func(fd *ast.FuncDecl) []string {
+		var out []string
+		for _, st := range fd.Body.List {
+			if as, ok := st.(*ast.AssignStmt); ok && as.Tok == token.ASSIGN && len(as.Lhs) == 1 && len(as.Rhs) == 1 {
+				if p := fieldPath(as.Lhs[0]); p != "" && rhsKind(as.Rhs[0]) == "make" {
+					out = append(out, p+" = "+showIn(token.NewFileSet(), as.Rhs[0]))
+				}
+			}
+		}
+		sort.Strings(out)
+		return out
+	}
+	var rec *ast.FuncDecl
+	if f := files["verif_export.go"]; f != nil {
+		for _, d := range f.Decls {
+			if fd, ok := d.(*ast.FuncDecl); ok && fd.Name.Name == "VerifRecycle" && fd.Body != nil {
+				rec = fd
+			}
+		}
+	}
+	if rec == nil {
+		die(fmt.Errorf("verif_export.go: VerifRecycle not found (the run stream's recycled connection objects are compared with the constructor)"))
+	}
+	var want []string
+	for _, f := range files {
+		for _, d := range f.Decls {
+			if fd, ok := d.(*ast.FuncDecl); ok && fd.Body != nil && fd.Recv == nil {
+				for _, n := range ctorNames {
+					if fd.Name.Name == n {
+						want = append(want, tops(fd)...)
+					}
+				}
+			}
+		}
+	}
+	sort.Strings(want)
+	// VerifRecycle also re-makes what VerifNewConn adds after the constructor (writing_thread_push)
+	var got []string
+	for _, g := range tops(rec) {
+		if !strings.HasPrefix(g, "writing_thread_push ") {
+			got = append(got, g)
+		}
+	}
+	if strings.Join(want, "\n") != strings.Join(got, "\n") {
+		die(fmt.Errorf("VerifRecycle (verif_export.go) no longer re-makes exactly what the constructor makes unconditionally:\n constructor: %v\n VerifRecycle: %v", want, got))
+	}
 }
